@@ -407,6 +407,60 @@ def eval_effect(ctx, case):
         ctx.violation(f"effect:warnings-differ:{name}", f"{name}: warnings differ between global and front-matter setting", case, {"global": strip(w1)[:5], "front": strip(w2)[:5]})
 
 
+SPHINX_EFFECTS = [
+    ("sub_delimiters", ["[", "]"], {"enable_extensions": ["substitution"], "substitutions": {"subkey": "v"}}),
+    ("enable_extensions", ["deflist", "dollarmath", "tasklist", "colon_fence", "strikethrough"], {}),
+    ("heading_anchors", 3, {}),
+    ("url_schemes", {"https": None, "gh": "https://github.com/{{path}}#{{fragment}}"}, {}),
+    ("substitutions", {"subkey": "FRONT"}, {"substitutions": {"subkey": "GLOBAL", "subnum": 7}, "enable_extensions": ["substitution"]}),
+    ("footnote_sort", False, {}),
+    ("title_to_header", True, {}),
+    ("fence_as_directive", ["note"], {}),
+    ("dmath_double_inline", True, {"enable_extensions": ["dollarmath"]}),
+    ("all_links_external", True, {}),
+]
+
+
+def eval_effect_sphinx(ctx, case):
+    """(d) through the Sphinx front end: conf.py value vs the same value in the document's front matter, and the
+    environment's global config is deep-equal before and after the build (f)."""
+    name, val, base = SPHINX_EFFECTS[case["effect"]]
+    body = EXTRA_DOC
+    fm_extra = {"title": "Front Title"} if name == "title_to_header" else {}
+    glob_kw = dict(base)
+    glob_kw[name] = {**base.get(name, {}), **val} if fields()[name].metadata.get("merge_topmatter") else val
+    t_global = "---\n" + yaml.safe_dump({"other": "x", **fm_extra}) + "---\n" + body
+    t_front = "---\n" + yaml.safe_dump({"other": "x", **fm_extra, "myst": {name: val}}) + "---\n" + body
+    out = []
+    for text, kw in ((t_global, glob_kw), (t_front, base)):
+        b = drive.SphinxBuild({"index.md": text}, conf={"myst_" + k: v for k, v in kw.items()}, builder="dummy")
+        try:
+            try:
+                b.build()
+            except Exception as e:  # noqa: BLE001
+                ctx.count("no_document:sphinx:" + type(e).__name__)
+                return
+            before = repr(sorted((k, repr(v)) for k, v in b.app.env.myst_config.as_dict().items()))
+            doc = b.doctree("index").deepcopy()
+            drive.mask_lines(doc)
+            from myst_parser.config.main import MdParserConfig
+
+            expect = MdParserConfig(**{k: v for k, v in kw.items()})
+            if repr(sorted((k, repr(v)) for k, v in expect.as_dict().items() if k in ("enable_extensions", name))) != repr(sorted((k, repr(v)) for k, v in b.app.env.myst_config.as_dict().items() if k in ("enable_extensions", name))):
+                ctx.violation("snapshot:sphinx-global-config-changed-by-build", f"env.myst_config[{name}] after the build differs from the conf.py value", case, {"expected": repr(getattr(expect, name)), "after": repr(getattr(b.app.env.myst_config, name))})
+            out.append((doc.pformat().replace(b.src, "SRC"), sorted(re.sub(r"^[^ ]* WARNING: ", "", re.sub(r"\x1b\[[0-9;]*m", "", l)) for l in b.norm_warnings().splitlines() if l.strip())))
+        finally:
+            b.close()
+    ctx.count("sphinx_effect_pairs_compared")
+    if out[0][0] != out[1][0]:
+        import difflib
+
+        diff = "\n".join(list(difflib.unified_diff(out[0][0].splitlines(), out[1][0].splitlines(), "conf.py", "front-matter", lineterm="", n=1))[:40])
+        ctx.violation(f"effect:sphinx:doctree-differs:{name}", f"[sphinx] {name}={val!r} in front matter renders differently from the same value in conf.py", case, {"diff": diff})
+    elif out[0][1] != out[1][1]:
+        ctx.violation(f"effect:sphinx:warnings-differ:{name}", f"[sphinx] {name}: warnings differ between conf.py and front-matter setting", case, {"conf": out[0][1][:5], "front": out[1][1][:5]})
+
+
 def eval_invalid_doc(ctx, case):
     """(e) through the full pipeline: an invalid front-matter value is ignored with exactly one [myst.topmatter] warning."""
     name = case["field"]
@@ -448,6 +502,8 @@ def eval_case(ctx, case):
         eval_effect(ctx, case)
     elif k == "invalid_doc":
         eval_invalid_doc(ctx, case)
+    elif k == "effect_sphinx":
+        eval_effect_sphinx(ctx, case)
 
 
 # ------------------------------------------------------------------------------------------- workload
@@ -477,6 +533,11 @@ def run_shard(ctx):
     ctx.enumerated(n)
     ctx.subrun("field_value_matrix", exhaustive=True, fields=len(names) if ctx.shard == 0 else 0, cases=n)
     ctx.sample({"kind": "value", "field": "url_schemes", "index": 3, "value": repr(pool("url_schemes")[3])})
+    for i in range(len(SPHINX_EFFECTS)):
+        if i % ctx.nshards == ctx.shard % len(SPHINX_EFFECTS) or not quick:
+            case = {"kind": "effect_sphinx", "effect": i}
+            eval_case(ctx, case)
+            ctx.case(("effect_sphinx", i), True)
     ne = 250 if quick else 10000
     for i in range(ne):
         case = {"kind": "effect", "effect": (i * ctx.nshards + ctx.shard) % len(EFFECTS), "seed": R.getrandbits(40)}
@@ -491,7 +552,7 @@ def run_shard(ctx):
 def finalize(m, tier):
     c = m["counters"]
     for k, lo in (("ctor_outcomes", 250), ("merge_calls", 200), ("entry_points_compared", 80), ("front_matter_configs_captured", 40), ("docutils_strings_compared", 30), ("sphinx_conf_compared", 60), ("sphinx_invalid_conf_reported", 50),
-                  ("effect_pairs_compared", 1500), ("invalid_front_matter_docs", 60)):
+                  ("effect_pairs_compared", 1500), ("invalid_front_matter_docs", 60), ("sphinx_effect_pairs_compared", 8)):
         if c.get(k, 0) < lo:
             m["inconclusive"].append(f"monitor observed only {c.get(k, 0)} '{k}' events (< {lo})")
     mon.require_reach(m, ANCHORS)
